@@ -231,7 +231,7 @@ def correspond(ctx):
     def report_as_c10(prop, key, what, replay):
         pass
     sevmcheck.run(ctx, "C02", LOOP_FEATURES, n_scenarios=ctx.scale(40, 800), n_random_inputs=ctx.scale(8, 16), cfgs=cfgs,
-                  gen=gen_loopy, corpus=False)
+                  gen=gen_loopy, corpus=True, corpus_as="C10")
     # sevmcheck reported uncovered-without-flag inputs under the key prefix C02|uncovered: re-key them for this property
     for v in ctx.violations:
         if v["key"].startswith("C02|uncovered"):
